@@ -53,6 +53,11 @@ def bounds(ctx):
               Deltas=[0, 1024], MaxIters=[1], Kicks=[1, 3], MaxSteps=3, MaxRefusals=1), sc.INV_C12 + sc.INV_C13,
          sc.PROP_C12 + sc.PROP_C13, ACTIONS + ["StageRestart", "Induced"]),
     ]
+    models.append(
+        # edge of the option space: adaptive with dt_init == dt_max (no room to grow, retries still shrink the step)
+        ("StepCtl[C12 adaptive with dt_init == dt_max]",
+         dict(Adaptives=[True], Windows=[1, 2], RetrySet=[0, 2], MulExps=[1, 2], InitEs=[4], MaxE4s=[8], Deltas=D4,
+              MaxSteps=5 if q else 7, MaxRefusals=3 if q else 4), sc.INV_C12, sc.PROP_C12, ACTIONS))
     small = dict(Adaptives=[True], Windows=[1], RetrySet=[0, 1], MulExps=[1], Deltas=D4, MaxSteps=5, MaxRefusals=4)
     scr2 = dict(Adaptives=[True], Screenings=[True], Windows=[2], RetrySet=[0], MulExps=[1], Deltas=[0, 1024, 16384],
                 MaxIters=[1], Kicks=[1, 3], MaxSteps=4, MaxRefusals=0)
@@ -73,6 +78,8 @@ def bounds(ctx):
         ("screening", dict(Adaptives=[True], Screenings=[True], Windows=[1], RetrySet=[1], MulExps=[1], Deltas=[0, 1024],
                            MaxIters=[1], Kicks=[1, 3], MaxSteps=3, MaxRefusals=2)),
         ("screening window 2", dict(scr2, Deltas=[0, 1024] if q else [0, 1024, 16384], MaxSteps=4 if q else 5)),
+        ("dt_init == dt_max", dict(Adaptives=[True], Windows=[1], RetrySet=[0, 2], MulExps=[1], InitEs=[4], MaxE4s=[8],
+                                   Deltas=[0, 1024, 16384], MaxSteps=4, MaxRefusals=2 if q else 3)),
         ("thermalisation", dict(Thermals=[True], MaxThermal=3 if q else 4, Adaptives=[True], Windows=[1], RetrySet=[1], MulExps=[1],
                                 Deltas=[0, 1024, 16384], MaxSteps=3 if q else 4, MaxRefusals=1 if q else 2)),
         ("thermalisation window 2 / fixed step", dict(Thermals=[True], MaxThermal=4, Adaptives=[True, False], Windows=[2], RetrySet=[0],
@@ -107,6 +114,14 @@ def natural_matrix(ctx):
         dict(dev="barhole", dt_init=2.0 ** -6, dt_max=0.5, window=3, current=12.0, field=1.0, skip_time=1.0, solve_time=2.0,
              retries=10, multiplier=0.5, k=50),
         dict(dev="bar", adaptive=False, dt_init=2.0 ** -6, current=3.0, field=0.3, skip_time=0.1, solve_time=0.2, k=50),
+        # edge input: adaptive with dt_init == dt_max and refusals (the retries must still happen)
+        dict(dev="bar", dt_init=0.5, dt_max=0.5, window=2, current=20.0, field=1.0, solve_time=6.0, retries=10, k=50),
+        # history: ONE options object used for a run with dt_init == dt_max, then re-used with a larger dt_max; the
+        # second run must adapt as asked, and no run may rewrite the caller's options
+        dict(first=dict(dev="bar", dt_init=0.25, dt_max=0.25, window=2, current=20.0, field=1.0, solve_time=4.0, retries=10, k=50),
+             then_set=dict(dt_max=100.0, solve_time=12.0)),
+        dict(first=dict(dev="bar", dt_init=2.0 ** -6, dt_max=2.0 ** -6, window=3, solve_time=0.2, k=50),       # quiet first run
+             then_set=dict(dt_max=0.5, solve_time=3.0)),
         # adaptive + screening with a proposal that is NOT clipped and dynamics that change from step to step: the
         # window must hold one delta per solve step, however many screening iterations a step took
         dict(dev="bar", screening=True, tol=1e-2, alpha=0.5, beta=0.5, dt_init=2.0 ** -8, dt_max=0.25, window=4,
@@ -174,6 +189,10 @@ def run(ctx):
     if not (sum(s["refusals"] for s in st) > 50 and "euler" in raised and sum(s["rule_steps"] for s in st) > 50
             and any(s["max_retries_in_a_step"] >= 3 for s in st)):
         raise core.MachineryFailure(f"natural runs did not exercise retries / the rule / exhaustion: {st} {raised}")
+    hist2 = [t for t in ntraces if "second run" in t["params"].get("history", "")]
+    if not (hist2 and all(t["stats"]["rule_steps"] >= 5 and t["ev"][-1]["ev"] == "options" for t in hist2)
+            and any(t["params"]["dt_init"] == t["params"].get("dt_max") and t["stats"]["refusals"] > 10 for t in ntraces)):
+        raise core.MachineryFailure("no re-used options object with an adapting second run / no dt_init == dt_max run with refusals")
     th = [(t, s) for t, s in zip(ntraces, st) if t["params"].get("skip_time") and t["params"].get("adaptive", True)]
     if not any(s["restarts"] == 1 and s["refusals_before_restart"] > 10 and s["refusals"] - s["refusals_before_restart"] > 10
                and s["tent_at_restart"] != t["params"]["dt_init"] and s["updates"] - s["updates_before_restart"] > t["params"]["window"] + 3
@@ -204,7 +223,7 @@ def run(ctx):
                   for mut in (sc.mut_exact_tent, sc.mut_exact_retry, sc.mut_exact_drop_raise)]
     if nacc:
         items += [("StepCtlTrace", ntraces, nacc, sc.flags_cfg(), mut, f"C12/{mut.__name__}", sc.strip_trace)
-                  for mut in (sc.mut_flags_rule, sc.mut_flags_mult)]
+                  for mut in (sc.mut_flags_rule, sc.mut_flags_mult, sc.mut_flags_options)]
     sc.canaries_concurrently(ctx, items)
 
 
